@@ -10,7 +10,7 @@ Open Scope N_scope.
 Fixpoint utab_find (l : list (N * N * N)) (c : N) : option (N * N) :=
   match l with
   | [] => None
-  | (r, lo, sf) :: l' => if r =? c then Some (lo, sf) else if c <? r then None else utab_find l' c
+  | (r, lo, sf) :: l' => if r =? c then Some (lo, sf) else utab_find l' c
   end.
 
 (** unicode.ToLower *)
